@@ -103,33 +103,37 @@ def scanStr (q : B) : Bool → List B → Nat → Nat → Nat → Nat × Nat × 
     if c == q then scanStr q false cs (n + 2) l (k + 2)
     else (n + 1, l, k + 1)
 
-/-- `t_number`: length of the number token at the start of the input (0 = no match). -/
-def numLen (s : List B) : Nat :=
-  -- integer part (skipped when the text starts with '.')
-  let startsDot := match s with | 46 :: _ => true | _ => false
-  let n1 := if startsDot then 0 else lenWhile isDigit s
-  if !startsDot && n1 == 0 then 0 else
-  let r1 := s.drop n1
-  -- fraction
-  let n2 := match r1 with
-    | 46 :: r => let d := lenWhile isDigit r; if d == 0 then n1 else n1 + 1 + d
-    | _ => n1
-  let r2 := s.drop n2
-  -- exponent
+def startsDot : List B → Bool
+  | 46 :: _ => true
+  | _ => false
+
+/-- fraction of a number: `r1` is the text behind the `n1` characters of the integer part -/
+def numFracAt (r1 : List B) (n1 : Nat) : Nat :=
+  match r1 with
+  | 46 :: r => if lenWhile isDigit r == 0 then n1 else n1 + 1 + lenWhile isDigit r
+  | _ => n1
+
+/-- exponent of a number: `r2` is the text behind the `n2` characters of integer part and fraction -/
+def numExpAt (r2 : List B) (n2 : Nat) : Nat :=
   match r2 with
   | e :: r =>
     if e == 101 || e == 69 then
       match r with
       | sg :: r' =>
         if sg == 43 || sg == 45 then
-          let d := lenWhile isDigit r'
-          if d == 0 then n2 + 1 else n2 + 2 + d
+          (if lenWhile isDigit r' == 0 then n2 + 1 else n2 + 2 + lenWhile isDigit r')
         else
-          let d := lenWhile isDigit r
-          if d == 0 then n2 else n2 + 1 + d
+          (if lenWhile isDigit r == 0 then n2 else n2 + 1 + lenWhile isDigit r)
       | [] => n2
     else n2
   | [] => n2
+
+/-- `t_number`: length of the number token at the start of the input (0 = no match). -/
+def numLen (s : List B) : Nat :=
+  -- integer part (skipped when the text starts with '.')
+  if !startsDot s && lenWhile isDigit s == 0 then 0 else
+  numExpAt (s.drop (numFracAt (s.drop (if startsDot s then 0 else lenWhile isDigit s)) (if startsDot s then 0 else lenWhile isDigit s)))
+    (numFracAt (s.drop (if startsDot s then 0 else lenWhile isDigit s)) (if startsDot s then 0 else lenWhile isDigit s))
 
 /-- `t_hexadecimal` -/
 def hexLen : List B → Nat
